@@ -260,14 +260,14 @@ func main() {
 			"non-trivial = history has >=1 distortion and the final state puts >=1 policy on a local endpoint; distinct by final state",
 		Assumptions: []string{
 			"shadowdp fold (verif/internal/shadowdp) is the observer; proto.Equal decides message equality",
-			"generated values pass/fail the repo's validators as tagged (verified per case by Universe.SelfCheck against calc.ValidationFilter)",
+			"generated values pass/fail the repo's validators as tagged (verified per case by Universe.SelfCheck against the repo's v1/v3 validators)",
 			"async sub-run: end of output detected by a sentinel Kubernetes Service (emitted last by EventSequencer.Flush); 60 s watchdog => inconclusive",
 		},
 		Cases: func(tier string) int {
 			if tier == "thorough" {
 				return 12000
 			}
-			return 400
+			return 360
 		},
 		Run: run,
 		Floors: map[string]int64{"histories": 40, "messages_folded": 5000, "state_comparisons": 80, "batches_revert": 50,
